@@ -103,6 +103,17 @@ def _work(job):
         import traceback
         out["error"] = "engine-error: %r\n%s" % (ex, traceback.format_exc()[-1500:])
         return out
+    contract_clauses = {nm for nm, _ in list(con.requires) + list(con.ensures) + list(con.ensures_exc)}
+    try:
+        from .contract import all_specs
+        cls_q = con.closure_self or con.cls or ".".join(qual.split(".")[:-1])
+        for sp in all_specs(eng, cls_q):
+            contract_clauses.update(nm for nm, _ in list(sp.invariants) + list(getattr(sp, "assumed", [])))
+    except Exception:
+        pass
+    for mon in getattr(reg, "monitors", None) or []:
+        contract_clauses.update(nm for nm, _ in list(mon.invariants) + list(getattr(mon, "assumed", [])))
+    out["contract_clauses"] = sorted(contract_clauses)
     groups = OrderedDict()
     for ob in eng.obligations:
         groups.setdefault(ob.name, []).append(ob)
@@ -234,7 +245,7 @@ def report(ck, results, select=None, replayer=None, rename=None, also_used=()):
             if known:
                 ck.fail(name, known[0]["key"], known[0]["what"], replay=payload, reproduced=reproduced)
                 ck.ob(name, "known-finding", backend=backend, secs=rec["secs"], clause=rec["clause"], queries=rec["paths"], detail={"model": model})
-            elif not reproduced and proof_internal(name) and (full in lock):
+            elif not reproduced and proof_internal(name) and name.rsplit(":", 1)[-1] not in set(res.get("contract_clauses", ())) and (full in lock):
                 # a loop invariant / cut assertion without a property clause in it is part of the PROOF, tied to the shape of the code:
                 # refuted alone it means "the proof needs adjusting", not "the property is broken".  Decided in Check.finish():
                 # a violation if a property clause or a stand-in of this check fails as well, otherwise undecided
